@@ -50,7 +50,7 @@ def profile(tier):
                     "delay": 1, "phase_shift": 2, "target": 4, "eom": 3,
                     "add_dmm": 5, "detmap": 3, "slm": 2},
         "device": dev,
-        "register": gen.register_specs(n=(1, 4), layout=False),
+        "register": gen.register_specs(n=(1, 4), layout=False, int_ids=True),
     }
 
 
